@@ -108,8 +108,23 @@ impl SerdeUsage {
 
   fn custom_type_name(type_ref: &TypeRef) -> Option<EnumToken> {
     match &type_ref.base_type {
-      RustPrimitive::Custom(name) => Some(name.as_ref().into()),
+      RustPrimitive::Custom(name) => Some(Self::innermost_type_name(name.as_ref()).into()),
       _ => None,
+    }
+  }
+
+  /// Map types are carried as the rendered `HashMap<String, V>`; usage has to
+  /// reach `V` (through any `Option`/`Box`/`Vec` around it), not the map itself.
+  fn innermost_type_name(name: &str) -> &str {
+    let mut current = name;
+    loop {
+      let inner = ["std::collections::HashMap<String, ", "Option<", "Box<", "Vec<"]
+        .iter()
+        .find_map(|prefix| current.strip_prefix(prefix).and_then(|rest| rest.strip_suffix('>')));
+      match inner {
+        Some(inner) => current = inner,
+        None => return current,
+      }
     }
   }
 
